@@ -250,6 +250,15 @@ func c41ErrClass(err error) string {
 	return b.String()
 }
 
+// c41CtxClass abstracts a fragment context for signatures: all foreign
+// (svg/math namespace) contexts are one class, HTML contexts keep their name.
+func c41CtxClass(name string) string {
+	if strings.Contains(name, ":") {
+		return "foreign"
+	}
+	return name
+}
+
 func c41Outcome(st c41Stats) string {
 	f := "html-only"
 	if st.foreign > 0 {
@@ -307,7 +316,7 @@ func c41Fragment(w *vx.W, in string, ctxs []c41Ctx) {
 			cfg := fmt.Sprintf("ParseFragment(context=%s, scripting=%v)", cx.name, scripting)
 			nodes, err := ParseFragmentWithOptions(strings.NewReader(in), ctxNode, ParseOptionEnableScripting(scripting))
 			if err != nil {
-				w.Failf("C41/fragment/error-means-internal-panic:"+c41ErrClass(err), "%s of %q returned error %q", cfg, in, err)
+				w.Failf("C41/fragment/error-means-internal-panic:"+c41ErrClass(err)+"/ctx="+c41CtxClass(cx.name), "%s of %q returned error %q (the parser turns panics into errors)", cfg, in, err)
 				return
 			}
 			var st c41Stats
@@ -317,7 +326,7 @@ func c41Fragment(w *vx.W, in string, ctxs []c41Ctx) {
 					return
 				}
 				if err := Render(io.Discard, n); err != nil {
-					w.Failf("C41/fragment-render/error:"+c41ErrClass(err), "Render of result node %d (%s) of %s of %q failed: %v", i, c41Name(n), cfg, in, err)
+					w.Failf("C41/render/error:"+c41ErrClass(err), "Render of result node %d (%s) of %s of %q failed: %v", i, c41Name(n), cfg, in, err)
 					return
 				}
 			}
@@ -359,13 +368,13 @@ func TestVerif_C41(t *testing.T) {
 			docFull, len(full), full, docFull+1, docCore, len(c41Core), len(c41Contexts), ctxNames, fragFull, fragFull+1, fragCore))
 		c.Assume("non-termination is detected only by the shard timeout (no per-case watchdog: it could not be made free of false alarms under CPU contention); inputs outside the item language, reader errors and nesting beyond the documented 512-element limit are not covered; a non-nil error from Parse on these inputs is counted as an internal panic because parser.parse recovers panics into errors")
 
-		vx.Enumerate(c, "document-full", vx.Opts{}, func(yield func(c41Case) bool) {
-			vx.Strings(idx(len(full)), 0, docFull, func(s []int) bool { return yield(c41Case{"full", s}) })
-		}, func(w *vx.W, x c41Case) { c41Document(w, x.input()) })
-
 		vx.Enumerate(c, "fragment-full", vx.Opts{}, func(yield func(c41Case) bool) {
 			vx.Strings(idx(len(full)), 0, fragFull, func(s []int) bool { return yield(c41Case{"full", s}) })
 		}, func(w *vx.W, x c41Case) { c41Fragment(w, x.input(), c41Contexts) })
+
+		vx.Enumerate(c, "document-full", vx.Opts{}, func(yield func(c41Case) bool) {
+			vx.Strings(idx(len(full)), 0, docFull, func(s []int) bool { return yield(c41Case{"full", s}) })
+		}, func(w *vx.W, x c41Case) { c41Document(w, x.input()) })
 
 		vx.Enumerate(c, "fragment-core", vx.Opts{}, func(yield func(c41Case) bool) {
 			vx.Strings(idx(len(c41Core)), fragFull+1, fragCore, func(s []int) bool { return yield(c41Case{"core", s}) })
